@@ -36,6 +36,8 @@ CLAIMED = {
          "Generic vs fast-path keys-and-cert readers within the fast paths' key types; pointer vs value readers; key certificate from bytes / certificate / types / builder / payload helper; certificate builder vs constructor; the three signature constructors; string and integer constructors."),
  "C20": ("Exhaustive enumeration of (exported type, exported method) pairs of the current API on zero values (generated per run through go/types; executed by the symbolic executor so that the panic site and the replay are uniform), plus bounded symbolic checking of the partial values parsers return together with an error for truncated encodings.",
          "Zero-value part: complete for the API at check time (27 types, 278 pairs on the unchanged tree); methods whose parameters have no nd generator are listed in the generated file. Failed-parse part: two shapes per structure, cut points at field boundaries."),
+ "C18": ("Write-set reduction decided by bounded symbolic model checking: after parsing/constructing a value every existing object (receiver graph, input buffer, package-level state) is frozen, one read-only exported operation (generated from the current API) runs, and the executor reports any store, copy, in-place append or map update into a frozen object - for every input content, under two append-growth policies. If no read-only operation writes shared memory, concurrent readers are race-free under the Go memory model and each returns what it returns alone.",
+         "Interleavings are not enumerated (the reduction replaces them). Logger, time.Now and the crypto dependency are assumed thread-safe. Values: C01 shapes (2-3 per structure) and small free-form inputs. A write-set finding has no single-run native replay; the replay file holds the input of the path."),
 }
 NA_REASON = "check under construction in this session; it will be claimed once its harnesses run clean on the unchanged tree"
 
